@@ -36,6 +36,8 @@ var nvPresets = [][]int{
 	{0, 2, 8, 0, 0, 0}, // several proofs among the votes, proposal = block of the lowest one
 	{3, 0, 8, 0, 0, 0},
 	{0, 1, 8, 0, 0, 0},
+	{0, 6, 2, 0, 0, 0}, // own vote: certificate for another (consumer-invalid) block under PREPARE signatures lifted from the block really prepared
+	{0, 6, 0, 0, 1, 1},
 	{0, 0, 0, 4, 0, 0}, // embedded proposal in the leader's name with a signature that is not the leader's
 	{0, 1, 9, 4, 0, 7},
 	{3, 0, 1, 4, 1, 0},
@@ -103,11 +105,11 @@ func drawByz(t *rapid.T, w *sim.World, o simOpts) *sim.ByzSpec {
 	}
 	if strat == "replay" {
 		p[0] = rapid.IntRange(0, 1<<20).Draw(t, "seenidx")
-		p[1] = rapid.IntRange(0, 3).Draw(t, "rmode")
+		p[1] = rapid.IntRange(0, 4).Draw(t, "rmode")
 	}
 	if strat == "nv" || strat == "vc" {
 		p[0] = rapid.IntRange(0, 4).Draw(t, "mode0")
-		p[1] = rapid.IntRange(0, 5).Draw(t, "mode1")
+		p[1] = rapid.IntRange(0, 6).Draw(t, "mode1")
 		if strat == "nv" {
 			p[2] = rapid.SampledFrom([]int{0, 0, 1, 2, 3, 4, 5, 8, 9, 9, 9}).Draw(t, "proposal")
 			p[3] = rapid.SampledFrom([]int{0, 0, 0, 0, 1, 2, 3, 4}).Draw(t, "ppmode")
@@ -191,6 +193,12 @@ func TestC10(t *testing.T) {
 	simProperty(t, o, func(w *sim.World) bool {
 		return w.Mon.Facts["two-proposals"] > 0 || w.Mon.Facts["dup"] > 0 || w.Mon.Facts["commit-quorum-before-prepared"] > 0 || w.Obs.Strategies["replay"] > 0
 	})
+}
+
+// C10 on one real node (engine N): the scripted scenarios (early message for an upcoming view then NEW_VIEW, prepares, timeouts;
+// next-height candidates through the cache) and mutated candidates, judged by the same send-stream oracle.
+func TestC10N(t *testing.T) {
+	nProperty(t, nOpts{Focus: "C10", Kinds: []string{"PL", "PL", "P", "P", "C", "C", "PP", "NV", "VC"}, MaxCands: 5, Scenarios: true})
 }
 
 // Debug: all monitors armed at once.
